@@ -198,6 +198,50 @@ Theorem C12_spawn_no_descriptor_left :
 Proof. exact spawn_no_leak. Qed.
 Print Assumptions C12_spawn_no_descriptor_left.
 
+(* ---- uv_disable_stdio_inheritance ----------------------------------------- *)
+
+(* core.c: for (fd = 0; ; fd++) if (uv__cloexec(fd, 1) && fd > 15) break;
+   [covered t d]: d < 16, or every number from 16 to d is open in t (the loop
+   goes past 16 only while descriptors are open - the documented limit).
+   For every table: after the call no covered descriptor is inheritable, no
+   descriptor was opened, closed or redirected, descriptors that are not
+   covered are untouched, and a covered descriptor never survives an exec. *)
+Theorem C12_disable_stdio_inheritance :
+  forall t,
+  let t' := disable_stdio_inheritance t in
+  (forall d e, covered t d -> get t' d = Some e -> e_cx e = true) /\
+  (forall d, option_map e_file (get t' d) = option_map e_file (get t d)) /\
+  (forall d, ~ covered t d -> get t' d = get t d) /\
+  (forall d, covered t d -> exec_entry (get t' d) = None).
+Proof.
+  intros t. cbv zeta.
+  destruct (disable_stdio_inheritance_effect t) as (A & B & C).
+  destruct (disable_stdio_inheritance_spec t) as (_ & D).
+  split; [exact A|]. split; [exact B|]. split; [exact D|exact C].
+Qed.
+Print Assumptions C12_disable_stdio_inheritance.
+
+(* hence none of them is open in a child spawned afterwards (beyond its stdio) *)
+Theorem C12_disable_stdio_inheritance_child :
+  forall t us efd tc,
+  let t' := disable_stdio_inheritance t in
+  sources_open t' us -> get t' efd <> None ->
+  child_init us efd None t' = CExec tc ->
+  forall d, length us <= d -> covered t d -> get tc d = None.
+Proof. exact disable_then_child. Qed.
+Print Assumptions C12_disable_stdio_inheritance_child.
+
+(* 0,1,2 open, a gap, 7 inheritable, 16-17 open, a gap, 19: everything but 19 is covered *)
+Example C12_disable_stdio_inheritance_example :
+  dump (disable_stdio_inheritance
+          [Some (mkE 1 false); Some (mkE 2 false); Some (mkE 3 false); None; None; None; None;
+           Some (mkE 4 false); None; None; None; None; None; None; None; None;
+           Some (mkE 5 false); Some (mkE 6 false); None; Some (mkE 7 false)])
+  = [(0, mkE 1 true); (1, mkE 2 true); (2, mkE 3 true); (7, mkE 4 true);
+     (16, mkE 5 true); (17, mkE 6 true); (19, mkE 7 false)].
+Proof. vm_compute. reflexivity. Qed.
+Print Assumptions C12_disable_stdio_inheritance_example.
+
 (* ---- uid / gid ------------------------------------------------------------ *)
 
 (* UV_PROCESS_SETUID / UV_PROCESS_SETGID take effect: when the caller is
